@@ -893,7 +893,7 @@ pub fn run(args: &[String]) -> i32 {
     let scripts = read_ndjson(scripts_path);
     let raw_path = format!("{out_path}.raw");
     let _ = std::fs::remove_file(&raw_path);
-    let exe = std::env::current_exe().expect("current exe");
+    let exe = crate::util::self_exe();
     let (mut si, mut ci) = (0usize, 0usize);
     let mut aborts = 0usize;
     let mut spawns = 0usize;
